@@ -723,4 +723,64 @@ theorem C05_kill_total_wait (gt i : Nat) :
     (i < pollsOf gt → pollsOf gt - (i + 1) < pollsOf gt - i) :=
   ⟨(C03_polls_bounds gt).2, (C03_polls_bounds gt).1, fun h => by omega⟩
 
+/-! ### non-vacuity -/
+
+/-- watcher "w" (uid 1, active, graceful_timeout 250 ms) with a stubborn worker 100 (ignores SIGTERM)
+    and a zombie 101 (exit code 1); a `watcher_stop` holds the exclusive slot -/
+def c05S : State :=
+  { ws := [{ name := "w", uid := 1, status := .active, np := 2, pids := [100, 101], graceful := 250 }],
+    a := { watchers := [1], names := [("w", 1)], slot := some "watcher_stop" },
+    objs := [{ pid := 100, wid := 1, started := 0 }, { pid := 101, wid := 2, started := 0 }],
+    k := { procs := [{ pid := 100, ppid := some 0, st := .run, status := 0, doom := none, behav := { term := none } },
+                     { pid := 101, ppid := some 0, st := .zombie, status := wstatExit 1, doom := none, behav := {} }],
+           nextPid := 102 },
+    nextId := 2 }
+
+/-- the same with the slot free -/
+def c05Free : State := { c05S with a := { c05S.a with slot := none } }
+
+def c05Req (cmd : String) (props : List (String × JVal)) : JVal :=
+  .obj [("command", .str cmd), ("id", .int 9), ("properties", .obj props)]
+
+-- the read-only hypotheses: known commands, not state-changing
+example : (["status", "list", "numprocesses", "numwatchers", "dstats", "get", "globaloptions", "ipython", "listen",
+    "listsockets", "options", "stats"].all fun c => commandNames.contains c && !stateChanging.contains c) = true := by
+  decide +kernel
+example : commandNames.all (fun c => stateChanging.contains c ||
+    ["status", "list", "numprocesses", "numwatchers", "dstats", "get", "globaloptions", "ipython", "listen",
+     "listsockets", "options", "stats"].contains c) = true := by decide +kernel
+-- with the slot taken: read-only requests are answered at once, a state-changing one is refused
+example : (handleMessage (some "c") (some (c05Req "status" [("name", .str "w")])) c05S).2.log.map showObs =
+    ["o rep c i9 active - -"] := by decide +kernel
+example : (handleMessage (some "c") (some (c05Req "list" [("name", .str "w")])) c05S).2.log.map showObs =
+    ["o rep c i9 ok - pids=[100]"] ∧
+    (handleMessage (some "c") (some (c05Req "list" [("name", .str "w")])) c05S).2.k.calls = 5 := by decide +kernel
+example : (handleMessage (some "c") (some (c05Req "numprocesses" [])) c05S).2.log.map showObs =
+    ["o rep c i9 ok - numprocesses=2"] := by decide +kernel
+example : (handleMessage (some "c") (some (c05Req "stop" [("name", .str "w")])) c05S).2.log.map showObs =
+    ["o rep c i9 error 5 -"] := by decide +kernel
+-- slot free: a non-waiting `stop` of a stubborn worker is answered `ok` while the operation is still
+-- running (future 2 pending, one 100 ms timer, watcher `stopping`), without any blocking sleep
+example : (match (validateExecute "stop" (.obj [("name", .str "w")]) (clearDone c05Free).2).1 with
+    | .ok (.future 2 "") => true | _ => false) = true := by decide +kernel
+example : (handleMessage (some "c") (some (c05Req "stop" [("name", .str "w")])) c05Free).2.log.map showObs =
+      ["o sig 100 15 r", "o ev 119 kill 100 -", "o rep c i9 ok - -"] ∧
+    (handleMessage (some "c") (some (c05Req "stop" [("name", .str "w")])) c05Free).2.tops.map (·.tid) = [2] ∧
+    (handleMessage (some "c") (some (c05Req "stop" [("name", .str "w")])) c05Free).2.sleepers.map (·.deadline) = [100] ∧
+    (handleMessage (some "c") (some (c05Req "stop" [("name", .str "w")])) c05Free).2.k.slept = 0 ∧
+    (handleMessage (some "c") (some (c05Req "stop" [("name", .str "w")])) c05Free).2.blocked = false := by decide +kernel
+-- reaping: the zombie is collected by one `waitpid` without sleeping; a running process makes the
+-- loop sleep once per iteration and finally gives up (`blocked`)
+example : (c05S.k.find 101).map (fun p => (p.ppid, p.st, p.status)) = some (some 0, .zombie, 256) ∧
+    c05S.k.armed = [] ∧ (c05S.k.procs.all fun p => p.doom.isNone) = true := by decide +kernel
+example : (reapWait 101 5 c05S).1 = some (some 256) ∧ (reapWait 101 5 c05S).2.k.slept = 0 ∧
+    (reapWait 100 5 c05S).1 = none ∧ (reapWait 100 5 c05S).2.k.slept = 5 ∧ (reapWait 100 5 c05S).2.blocked = true := by
+  decide +kernel
+-- the kill loop: graceful_timeout 250 ms = 3 polls; poll 0 parks a 100 ms timer, poll 3 escalates
+example : pollsOf 250 = 3 ∧
+    (killLoop (exec 10) 1 100 15 0 3 .none c05S).2.sleepers.map (·.deadline) = [100] ∧
+    (killLoop (exec 10) 1 100 15 3 3 .none c05S).2.sleepers = [] ∧
+    (killLoop (exec 10) 1 100 15 3 3 .none c05S).2.log.map showObs =
+      ["o sig 100 9 r", "o ev 119 kill 100 -", "o reap 100 9"] := by decide +kernel
+
 end Circus.Core
